@@ -8,7 +8,7 @@ from harness import core, exprcommon as X
 from harness.props.c08 import WRAPPERS, render_wrapped
 
 ID = "C20"
-LEAN_MODULES = ["JinjaV.Props.C20"]
+LEAN_MODULES = ["JinjaV.Props.C20", "JinjaV.Props.C02"]   # C02: guards_present, optimizer_traversal_as_modelled (tie of the folding pipeline)
 GEN = [tr_expr.gen]
 LEVEL = "proof"
 TRUSTED = [
